@@ -13,6 +13,7 @@ pub mod p03_flat;
 pub mod p04_container;
 pub mod dirty;
 pub mod p05_p16_dirty;
+pub mod p06_atomicity;
 pub mod p07_nocrash;
 pub mod p09_bitmap;
 pub mod p19_address;
@@ -27,6 +28,7 @@ pub fn properties() -> Vec<Property> {
         p03_flat::property(),
         p04_container::property(),
         p05_p16_dirty::property_c05(),
+        p06_atomicity::property(),
         p07_nocrash::property(),
         p09_bitmap::property(),
         p05_p16_dirty::property_c16(),
